@@ -1,9 +1,10 @@
 import IsoVerif.Model.Core.Refetch
 
 /-! Lemmas about the compiler's refetch-query bookkeeping (`IsoVerif.Ops.Book`):
-when the argument substitution keeps the order of the child's keys, the runtime's composition of
-the child's index and the parent's `usedRefetchQueries` selects the transformed key's query;
-when it does not, the composition can select another key's query (witness). -/
+the repaired compiler (`usedRefetchQueries`, `selectedKey`) always selects the transformed key's
+query; the compiler before the repair (`usedRefetchQueriesOld`, `selectedKeyOld`) did so only when
+the argument substitution kept the order of the child's distinct keys, and otherwise could select
+another key's query or none (witnesses). -/
 
 namespace IsoVerif.Ops.Book
 
@@ -182,11 +183,13 @@ theorem dedupAdjacent_sortKeys_map (f : Nat → Nat) (P : List Nat)
     (nodup_sortKeys (nodup_map_of_injOn f hnd (injOn_of_orderPreserving hop)))]
   exact sortKeys_map_of_orderPreserving f P hop
 
-/-! ### the runtime's composition -/
+/-! ### the runtime's composition, repaired compiler (F18)
 
-theorem selectedKey_of_orderPreserving (parentPaths : List Nat) (f : Nat → Nat)
+The parent lists the child's paths in the CHILD'S order and transforms afterwards: no hypothesis on
+the substitution is needed. -/
+
+theorem selectedKey_correct (parentPaths : List Nat) (f : Nat → Nat)
     (childPaths : List Nat) (σ : Nat) (hσ : σ ∈ childPaths)
-    (hop : OrderPreserving f childPaths) (hnd : childPaths.Nodup)
     (hsub : ∀ k ∈ childPaths, f k ∈ parentPaths) :
     selectedKey parentPaths f childPaths σ = some (f σ) := by
   obtain ⟨i, hi⟩ := indexOf?_of_mem (mem_sortKeys.mpr hσ)
@@ -195,9 +198,38 @@ theorem selectedKey_of_orderPreserving (parentPaths : List Nat) (f : Nat → Nat
   have hgj : (sortKeys parentPaths)[j]? = some (f σ) := getElem?_of_indexOf? hj
   have hused : (usedRefetchQueries parentPaths f childPaths)[i]? = some (some j) := by
     unfold usedRefetchQueries
-    rw [dedupAdjacent_sortKeys_map f childPaths hop hnd]
     simp [List.getElem?_map, hgi, hj]
   unfold selectedKey childIndex
+  simp only [hi, hused, hgj]
+
+/-- the hypotheses are satisfiable on a non-trivial input: the substitution reverses the order of
+two keys and merges two others, the child's list has a repeated key -/
+example : ∀ k ∈ ([2, 0, 3, 1, 2] : List Nat), (fun k => 7 - k / 2 * 2) k ∈ ([9, 7, 5, 6, 3] : List Nat) := by
+  decide
+
+example : selectedKey [9, 7, 5, 6, 3] (fun k => 7 - k / 2 * 2) [2, 0, 3, 1, 2] 3
+    = some ((fun k => 7 - k / 2 * 2) 3) := by
+  decide
+
+/-! ### the runtime's composition, before the repair
+
+The child's paths were transformed first, collected in a set and sorted: correct only when the
+substitution keeps the (strict) order of the child's distinct keys. -/
+
+theorem selectedKeyOld_of_orderPreserving (parentPaths : List Nat) (f : Nat → Nat)
+    (childPaths : List Nat) (σ : Nat) (hσ : σ ∈ childPaths)
+    (hop : OrderPreserving f childPaths) (hnd : childPaths.Nodup)
+    (hsub : ∀ k ∈ childPaths, f k ∈ parentPaths) :
+    selectedKeyOld parentPaths f childPaths σ = some (f σ) := by
+  obtain ⟨i, hi⟩ := indexOf?_of_mem (mem_sortKeys.mpr hσ)
+  have hgi : (sortKeys childPaths)[i]? = some σ := getElem?_of_indexOf? hi
+  obtain ⟨j, hj⟩ := indexOf?_of_mem (mem_sortKeys.mpr (hsub σ hσ))
+  have hgj : (sortKeys parentPaths)[j]? = some (f σ) := getElem?_of_indexOf? hj
+  have hused : (usedRefetchQueriesOld parentPaths f childPaths)[i]? = some (some j) := by
+    unfold usedRefetchQueriesOld
+    rw [dedupAdjacent_sortKeys_map f childPaths hop hnd]
+    simp [List.getElem?_map, hgi, hj]
+  unfold selectedKeyOld childIndex
   simp only [hi, hused, hgj]
 
 /-- the hypotheses are satisfiable on a non-trivial input -/
@@ -211,16 +243,26 @@ example : ([0, 1, 2] : List Nat).Nodup := by decide
 example : ∀ k ∈ ([0, 1, 2] : List Nat), (fun k => k + 5) k ∈ ([9, 7, 5, 6, 3] : List Nat) := by decide
 
 /-- the conclusion on concrete numbers: the child's key `1` ends up with the parent's key `6` -/
-example : selectedKey [9, 7, 5, 6, 3] (fun k => k + 5) [0, 1, 2] 1 = some ((fun k => k + 5) 1) := by
+example : selectedKeyOld [9, 7, 5, 6, 3] (fun k => k + 5) [0, 1, 2] 1 = some ((fun k => k + 5) 1) := by
   decide
 
-/-! ### witness: an order-reversing transformation selects the other key's query -/
+/-- under the hypotheses of the old theorem, old and repaired compilers agree -/
+theorem selectedKeyOld_eq_selectedKey_of_orderPreserving (parentPaths : List Nat) (f : Nat → Nat)
+    (childPaths : List Nat) (σ : Nat) (hσ : σ ∈ childPaths)
+    (hop : OrderPreserving f childPaths) (hnd : childPaths.Nodup)
+    (hsub : ∀ k ∈ childPaths, f k ∈ parentPaths) :
+    selectedKeyOld parentPaths f childPaths σ = selectedKey parentPaths f childPaths σ := by
+  rw [selectedKeyOld_of_orderPreserving parentPaths f childPaths σ hσ hop hnd hsub,
+    selectedKey_correct parentPaths f childPaths σ hσ hsub]
 
-theorem selectedKey_witness_reorder : selectedKey [0, 1] (fun k => 1 - k) [0, 1] 0 = some 0 := by
+/-! ### witness: an order-reversing transformation selected the other key's query -/
+
+theorem selectedKeyOld_witness_reorder :
+    selectedKeyOld [0, 1] (fun k => 1 - k) [0, 1] 0 = some 0 := by
   decide
 
-theorem witness_not_expected :
-    selectedKey [0, 1] (fun k => 1 - k) [0, 1] 0 ≠ some ((fun k => 1 - k) 0) := by
+theorem witnessOld_not_expected :
+    selectedKeyOld [0, 1] (fun k => 1 - k) [0, 1] 0 ≠ some ((fun k => 1 - k) 0) := by
   decide
 
 /-- the witness violates exactly the order hypothesis -/
@@ -229,21 +271,31 @@ theorem witness_not_orderPreserving : ¬ OrderPreserving (fun k => 1 - k) [0, 1]
   have := h 0 (by simp) 1 (by simp) (by decide)
   simp at this
 
+/-- the repaired compiler on the same input -/
+theorem selectedKey_repaired_reorder : selectedKey [0, 1] (fun k => 1 - k) [0, 1] 0 = some 1 := by
+  decide
+
 /-! ### witness: keys that MERGE under the substitution
 
-The child has two keys, both become `5`; the parent hands down ONE index; the child's index `1` is
+The child has two keys, both become `5`; the parent handed down ONE index; the child's index `1` was
 out of range. -/
 
-theorem selectedKey_witness_merge : selectedKey [5] (fun _ => 5) [0, 1] 1 = none := by decide
+theorem selectedKeyOld_witness_merge : selectedKeyOld [5] (fun _ => 5) [0, 1] 1 = none := by
+  decide
 
 theorem witness_merge_not_orderPreserving : ¬ OrderPreserving (fun _ => 5) [0, 1] := by
   intro h
   have := h 0 (by simp) 1 (by simp) (by decide)
   simp at this
 
-/-- `Nodup` is genuinely needed: a (weakly) order-preserving substitution on a child list with a
-repeated key shifts the indices after the set collection -/
-example : OrderPreserving (fun k => k) [0, 0, 1] ∧ selectedKey [0, 1] (fun k => k) [0, 0, 1] 1 ≠ some 1 := by
+/-- the repaired compiler on the same input -/
+theorem selectedKey_repaired_merge : selectedKey [5] (fun _ => 5) [0, 1] 1 = some 5 := by
+  decide
+
+/-- `Nodup` was genuinely needed before the repair: a (weakly) order-preserving substitution on a
+child list with a repeated key shifted the indices after the set collection -/
+example : OrderPreserving (fun k => k) [0, 0, 1] ∧
+    selectedKeyOld [0, 1] (fun k => k) [0, 0, 1] 1 ≠ some 1 := by
   refine ⟨fun a _ b _ hab => hab, by decide⟩
 
 end IsoVerif.Ops.Book
